@@ -346,4 +346,53 @@ def formatToken (ℓ : Locale) (tok : String) (a : TokArgs) : Except Err Str :=
 def locTokens : List String :=
   ["MMM", "MMMM", "dd", "ddd", "dddd", "e", "Do", "do", "Mo", "Qo", "wo", "DDDo", "eo", "A"]
 
+/-! ### which locale is loaded; `diff_for_humans`; `Locale.load` -/
+
+/-- `format_diff` / `Duration.in_words`: the `locale` argument when given, else the process-wide `pendulum._LOCALE` -/
+def resolveLocale (locale : Option String) (current : String) : String := locale.getD current
+
+/-- `Interval.in_words`: `locale or get_locale()` — an empty string counts as absent -/
+def resolveLocaleOr (locale : Option String) (current : String) : String :=
+  match locale with
+  | some s => if s = "" then current else s
+  | none => current
+
+/-- what `x.diff_for_humans(other, absolute, locale)` formats (the same for `DateTime`, `Date`, `Time`): the class's own
+    `diff` against `other` — or against the current moment when `other` is not given — always with `abs=True`;
+    `is_now` = no `other` given -/
+structure HumanReq (O : Type) where
+  other : O
+  diffAbs : Bool
+  isNow : Bool
+  absolute : Bool
+  locale : String
+
+def diffForHumans {O : Type} (now : O) (other : Option O) (absolute : Bool) (locale : Option String) (current : String) :
+    HumanReq O :=
+  ⟨other.getD now, true, other.isNone, absolute, resolveLocale locale current⟩
+
+/-- the characters `[a-z]` matches under `re.IGNORECASE`: the 52 ASCII letters and `İ ı ſ K` (U+0130, U+0131, U+017F,
+    U+212A; documented in the `re` module) -/
+def isLetterI (c : Char) : Bool :=
+  let n := c.toNat
+  (0x61 ≤ n && n ≤ 0x7A) || (0x41 ≤ n && n ≤ 0x5A) || n == 0x130 || n == 0x131 || n == 0x17F || n == 0x212A
+
+/-- `Locale.normalize_locale`: two letters, `-` or `_`, two letters at the start → `xx_yy` lower-cased; else the whole
+    string lower-cased. `lower` = `str.lower` -/
+def normalizeLocale (lower : Str → Str) (s : Str) : Str :=
+  match s with
+  | a :: b :: sep :: c :: d :: _ =>
+    if isLetterI a && isLetterI b && (sep == '-' || sep == '_') && isLetterI c && isLetterI d
+    then lower [a, b] ++ ['_'] ++ lower [c, d] else lower s
+  | _ => lower s
+
+/-- `str.lower` on ASCII text -/
+def asciiLower (s : Str) : Str := s.map Char.toLower
+
+/-- `Locale.load(<str>)`: the normalised name is the cache key, the name of the `Locale` and the directory whose data is
+    imported; a name without a directory is a `ValueError` (there is no fall-back to the language part) -/
+def loadKey (lower : Str → Str) (pathExists : Str → Bool) (s : Str) : Except String (Str × Str) :=
+  let n := normalizeLocale lower s
+  if pathExists n then .ok (n, n) else .error "ValueError"
+
 end Pendulum.Loc
